@@ -114,7 +114,7 @@ mod verif_probe_own_areas_c15 {
             e.0 += 1; if e.1.len() < 3 { e.1.push(f.clone()); }
         }
         for (k, (n, firsts)) in classes.iter() { eprintln!("PROBE-CLASS {} count={}", k, n); for f in firsts { eprintln!("{}", f); } }
-        assert!(nontrivial > 500, "PROBE generator degenerate");
         assert!(failures.is_empty(), "PROBE found {} failing inputs; first: {}", failures.len(), failures[0]);
+        assert!(nontrivial > 500, "PROBE generator degenerate");
     }
 }
